@@ -25,6 +25,13 @@ func rulesC18(c *Ctx) {
 	buildersStore(c, "retrypolicy")
 	c13Builders(c)
 	c13GetDelay(c)
+	// "whichever policies are configured", the response handed back must stay readable: the contexts policies derive
+	// for an attempt (Timeout's child, the hedge's per-attempt copies) reach the transport through MergeContexts, so
+	// a policy must not cancel the winning attempt's context on the success path — Timeout cancels only from the
+	// timer callback that won the race, the hedge cancels every started attempt except the winner
+	c.Rule("attempt-context")
+	c07Race(c)
+	c09Loop(c)
 }
 
 func rulesC19(c *Ctx) {
@@ -34,6 +41,7 @@ func rulesC19(c *Ctx) {
 	c18HTTPAttempt(c, map[string]bool{"cancel-runs": true})
 	c18GRPC(c)
 	c19Responses(c)
+	c19ChildContexts(c)
 	c.Rule("hedge-attempt")
 	c09Loop(c)
 	c.Rule("timeout-timer")
@@ -1101,6 +1109,158 @@ func c19Timers(c *Ctx) {
 		}
 	}
 	c.Floor("functions creating timers", n, 5)
+}
+
+// c19ChildContexts: every cancellable context the library derives for an execution must be released (its cancel
+// function called) by the time the part of the execution it was derived for has completed, on every path and not
+// only when the execution is cancelled. A derived context that is never cancelled stays registered with its parent
+// until the parent ends; when the parent is not one of package context's own types, package context watches it with
+// a goroutine per derived context, so every completed execution leaves a goroutine behind for as long as the
+// caller's context lives.
+//
+// Inventory of derivation sites (any other site fails as unreviewed) and the obligation of each owner:
+//   - util.MergeContexts returns the cancel function: the HTTP / gRPC attempt functions must run it (cancel-runs);
+//   - execution.CopyForCancellable / CopyForHedge store it in the copy: the Timeout closure must cancel its child,
+//     the hedge closure must cancel every attempt copy it created, on every returning path;
+//   - executeAsync stores it in the root execution: the runner must release it once the result is recorded.
+func c19ChildContexts(c *Ctx) {
+	c.Rule("child-contexts")
+	ix := BuildIndex(c.P)
+	reviewed := []string{"util.MergeContexts", "failsafe.(*execution).CopyForCancellable", "failsafe.(*execution).CopyForHedge", "failsafe.(*executor).executeAsync"}
+	n := 0
+	for _, fn := range c.P.Funcs {
+		for _, b := range fn.Blocks {
+			for _, in := range b.Instrs {
+				cc, isC := in.(ssa.CallInstruction)
+				if !isC {
+					continue
+				}
+				cal := calleeOf(cc.Common())
+				if cal == nil {
+					continue
+				}
+				switch qualName(cal) {
+				case "context.WithCancel", "context.WithCancelCause", "context.WithTimeout", "context.WithDeadline", "context.WithTimeoutCause", "context.WithDeadlineCause":
+				default:
+					continue
+				}
+				n++
+				if !ix.WithinNames(fn, reviewed...) {
+					c.Fail(c.fn(fn)+"#derives-context", c.P.Pos(in.Pos()), "a cancellable context is derived at a site that is not in the reviewed inventory: nothing shows that its cancel function runs when the execution completes", "")
+				}
+			}
+		}
+	}
+	c.Floor("context derivation sites", n, 3)
+	tab := c.ExecTable()
+	// Timeout: the child copy must be cancelled on every returning path
+	if info := tab["timeout"]; info == nil || info.Slots["Apply"] == nil {
+		c.Unresolved("timeout.executor.Apply", "not resolved")
+	} else {
+		ee := c.NewExecEval(info, EvalConfig{Inline: inlinePkgs(c.P, "internal")})
+		paths, _, exec := ee.RunApply()
+		name, pos := c.fn(info.Slots["Apply"])+"$1#child-context", c.P.FuncPos(info.Slots["Apply"])
+		if ee.Ev.Err != nil || len(paths) == 0 {
+			c.Undecided(name, pos, fmt.Sprintf("evaluation failed: %v", ee.Ev.Err), "")
+		} else {
+			bad := 0
+			for _, p := range paths {
+				if p.Exit != ExitReturn {
+					continue
+				}
+				for _, cp := range eventsWhere(p, func(e *Event) bool { return isCall(e, "CopyForCancellable") && e.Recv == exec && e.Idx >= p.Base }) {
+					child := cp.Res[0]
+					if len(eventsWhere(p, func(e *Event) bool { return isCall(e, "Cancel") && e.Recv == child && e.Idx > cp.Idx })) == 0 {
+						bad++
+						if bad == 1 {
+							c.Fail(name, pos, "the cancellable child context derived for the attempt (CopyForCancellable) is not cancelled when the attempt completes without timing out: it stays registered with the caller's context until that ends (one context-propagation goroutine per execution when the caller's context is not a standard library type)", pathTrace(ee.Ev, p))
+						}
+					}
+				}
+			}
+			if bad == 0 {
+				c.Ok(name, pos, "the child context is cancelled on every returning path")
+			}
+		}
+	}
+	// Hedge: every attempt copy created on a path must have been cancelled when the closure returns
+	if info := tab["hedgepolicy"]; info == nil || info.Slots["Apply"] == nil {
+		c.Unresolved("hedgepolicy.executor.Apply", "not resolved")
+	} else {
+		ee := c.NewExecEval(info, EvalConfig{MaxVisits: 3, MaxPaths: 400000})
+		paths, _, exec := ee.RunApply()
+		name, pos := c.fn(info.Slots["Apply"])+"$1#winner-context", c.P.FuncPos(info.Slots["Apply"])
+		if ee.Ev.Err != nil || len(paths) == 0 {
+			c.Undecided(name, pos, fmt.Sprintf("evaluation failed: %v", ee.Ev.Err), "")
+		} else {
+			bad := 0
+			for _, p := range paths {
+				if p.Exit != ExitReturn {
+					continue
+				}
+				// a return because the parent is cancelled: the copies derive from the parent's context and end with it
+				cancelled := false
+				for _, e := range eventsWhere(p, func(e *Event) bool { return isCall(e, "IsCanceledWithResult") && e.Recv == exec && e.Idx >= p.Base }) {
+					if p.State.Facts.Truth(ee.Ev.TS, e.Res[0]) == triT {
+						cancelled = true
+					}
+				}
+				if cancelled {
+					continue
+				}
+				for _, cp := range eventsWhere(p, func(e *Event) bool {
+					return (isCall(e, "CopyForCancellable") || isCall(e, "CopyForHedge")) && e.Recv == exec && e.Idx >= p.Base
+				}) {
+					child := cp.Res[0]
+					if len(eventsWhere(p, func(e *Event) bool { return isCall(e, "Cancel") && e.Recv == child && e.Idx > cp.Idx })) == 0 {
+						bad++
+						if bad == 1 {
+							c.Fail(name, pos, "an attempt's cancellable context (the winner's) is not cancelled when the hedged execution returns its result: it stays registered with the caller's context until that ends (one context-propagation goroutine per execution when the caller's context is not a standard library type)", pathTrace(ee.Ev, p))
+						}
+					}
+				}
+			}
+			if bad == 0 {
+				c.Ok(name, pos, "every attempt context is cancelled on every returning path")
+			}
+		}
+	}
+	// async: the root execution's cancel function must run once the runner has recorded the result
+	if fn := c.P.Func("failsafe.(*executor).executeAsync"); fn == nil {
+		c.Unresolved("failsafe.(*executor).executeAsync", "not found")
+	} else {
+		ev := NewEvaluator(c.P, EvalConfig{})
+		name, pos := c.fn(fn)+"#child-context", c.P.FuncPos(fn)
+		bad, seen := 0, 0
+		for _, p := range ev.Run(fn) {
+			wc := eventsWhere(p, func(x *Event) bool { return isCall(x, "WithCancel") || isCall(x, "WithCancelCause") })
+			gos := eventsWhere(p, func(x *Event) bool { return x.Kind == EvGo && x.Snap != nil })
+			if len(wc) != 1 || len(gos) != 1 || len(wc[0].Res) != 2 || ev.EventFn(gos[0]) == nil {
+				continue
+			}
+			seen++
+			cancel := wc[0].Res[1]
+			for _, q := range ev.RunEvent(gos[0].Snap, gos[0], nil) {
+				released := false
+				for _, x := range q.Events()[q.Base:] {
+					if isDynCall(x, cancel) || (x.Kind == EvDefer && x.FnTerm == cancel) {
+						released = true
+					}
+				}
+				if !released {
+					bad++
+					if bad == 1 {
+						c.Fail(name, pos, "the cancellable context derived for an async execution is released only by ExecutionResult.Cancel, never when the execution completes: it stays registered with the executor's context until that ends (one context-propagation goroutine per execution when that context is not a standard library type)", pathTrace(ev, q))
+					}
+				}
+			}
+		}
+		if seen == 0 {
+			c.Unresolved(name, "no path deriving a context and starting the runner found")
+		} else if bad == 0 {
+			c.Ok(name, pos, "the runner releases the derived context after recording the result")
+		}
+	}
 }
 
 // c19Responses: necessary condition for "responses obtained but not returned are closed".
